@@ -10,7 +10,7 @@ from vlib.workers import ALL, WorkerDied, WorkerSet
 PROPERTY = "C07"
 LEVEL = "exploration"
 RACE_INTERPS = ALL
-RULE = ("(Scripts d and e - a loop whose gates sit in a C-level and in a Python-level call at different stack depths; sibling with blocks in a generator the thread iterates - are also explored with two moves per schedule, and for the inspect API the raced snapshot must equal one of the snapshots taken while the thread is blocked at a gate. Finished: also a foreign thread's dummy Thread object whose ident a new thread has taken.) (Every other shard runs its interpreters under PYTHONOPTIMIZE=1 - python -O, assert statements compiled away - and the stress run is done both ways.) Blocked leg (CPython 3.9-3.12): Hypothesis-generated thread bodies of call depth 1..6 with 0-3 nested with blocks "
+RULE = ("(Stress variant churn on 3.9 / 3.10: the target leaves its with blocks and at once allocates and frees small containers, so that a slot read a moment too late points at freed memory; 2500 / 20000 extractions per configuration.) (Scripts d and e - a loop whose gates sit in a C-level and in a Python-level call at different stack depths; sibling with blocks in a generator the thread iterates - are also explored with two moves per schedule, and for the inspect API the raced snapshot must equal one of the snapshots taken while the thread is blocked at a gate. Finished: also a foreign thread's dummy Thread object whose ident a new thread has taken.) (Every other shard runs its interpreters under PYTHONOPTIMIZE=1 - python -O, assert statements compiled away - and the stress run is done both ways.) Blocked leg (CPython 3.9-3.12): Hypothesis-generated thread bodies of call depth 1..6 with 0-3 nested with blocks "
         "per frame (single and multi-item, inside try/finally), each level calling inward by a plain / returned / *args / **kwargs call, (plus one thread whose stack is 300 frames deeper than the recursion limit in force when it is inspected), the thread being a Thread(target=...), a Thread subclass, a Timer or a thread started through _thread (dummy Thread object), blocked on an Event at the innermost level or with the innermost level itself blocked in a C callable (lock.acquire, same four call forms); oracle = shadow call "
         "log: harness frames of extract(thread) equal it outermost first with contexts equal to each frame's managers, all "
         "frames equal the thread's f_back chain, threading internals hidden; unstarted / finished threads give no frames and no "
@@ -191,8 +191,14 @@ def shard_body(arg):
                 out.violation(v["desc"], {"cell": [fail["case"]["script"], fail["case"]["api"], fail["case"]["nadv"]],
                                           "ks": fail["case"]["ks"]}, v["interp"], obs=v.get("obs"), flaky=fail["flaky"])
         if arg.get("stress"):
-            for interp, variant in [(i, v) for i in RACE_INTERPS for v in ("loop", "exception", "short_lived")]:
+            for interp, variant in [(i, v) for i in RACE_INTERPS for v in ("loop", "exception", "short_lived", "churn")]:
                 n_it = arg["stress"] if variant == "loop" else max(50, arg["stress"] // 4)
+                if variant == "churn" and interp not in ("3.9", "3.10"):
+                    continue      # (on 3.11+ the check and the read that follows it cannot be separated by a thread switch)
+                if variant == "churn":
+                    # (what it is after - a reference taken through a stale pointer on 3.9 / 3.10 - shows as a crash in
+                    # about one run of 6000 extractions in three)
+                    n_it = 2500 if arg["stress"] <= 1000 else 20000
                 try:
                     res = ws[interp].request({"op": "threads.stress", "iterations": n_it, "variant": variant}, timeout=600)
                 except WorkerDied as ex:
